@@ -13,6 +13,7 @@ import (
 	"testing"
 	"time"
 
+	"github.com/influxdata/influxdb/models"
 	"github.com/influxdata/influxdb/pkg/verifhook"
 	"verifkit"
 )
@@ -399,5 +400,115 @@ func TestVerifC04KFRefusedAppend(t *testing.T) {
 	st.Sample("refused over-sized append then Empty()")
 	if what != "" {
 		st.KnownReproduced(vSigRefusedSeg, what)
+	}
+}
+
+// TestVerifC04KFBatchNearLimit (not registered in checks.d/C04.json; see the builder report): a batch whose
+// encoding is at most 10 MiB but larger than 10 MiB - 8 is neither split (WriteShard splits only above
+// 10 MiB) nor storable (a segment holds 10 MiB including its 8-byte footer): WriteShard returns ErrSegmentFull.
+func TestVerifC04KFBatchNearLimit(t *testing.T) {
+	st := verifkit.For("C04", "TestVerifC04KFBatchNearLimit", "directed: two-point batches whose encoding is 10 MiB-12 .. 10 MiB+4 bytes; non-trivial always")
+	defer st.Flush()
+	what := ""
+	for _, delta := range []int{-12, -8, -4, 0, 4} {
+		root, _ := os.MkdirTemp("", "c04kfn")
+		w := &vWriter{}
+		svc := NewService(vConfig(root, 1<<32, 16), w)
+		svc.MetaClient = &vMetaC{gone: map[uint64]bool{}}
+		if err := svc.Open(); err != nil {
+			t.Fatal(err)
+		}
+		pts := []models.Point{vBigPoint(1, 0, 5<<20), vBigPoint(1, 1, 100)}
+		base := len(vPointsBlk(1, 7, pts).Raw)
+		pts[1] = vBigPoint(1, 1, 100+defaultSegmentSize+delta-base)
+		size := len(vPointsBlk(1, 7, pts).Raw)
+		err := svc.WriteShard(7, 2, pts)
+		st.Case(true, fmt.Sprint("near", delta), fmt.Sprintf("batch-near-limit:delta=%d:err=%v", delta, err))
+		if err != nil && what == "" {
+			what = fmt.Sprintf("a 2-point batch encoding to %d bytes (10 MiB%+d) is refused with %v instead of being split", size, size-defaultSegmentSize, err)
+		}
+		svc.Close()
+		os.RemoveAll(root)
+	}
+	st.Sample(what)
+	if what != "" {
+		st.KnownReproduced("hh-batch-within-8-bytes-of-block-limit-refused", what)
+	}
+}
+
+// TestVerifC04KFEOFAdvance: NodeProcessor.SendWrite on a drained queue sees EOF from Current and then calls
+// Advance as a second critical section; an Append that lands in between is skipped (acknowledged, never
+// delivered, no crash involved). The harness owns the schedule: it holds the queue mutex exactly as Append does,
+// lets the real SendWrite run up to its Advance (which waits for that mutex), performs the body of Append
+// (tail.append, the only statement Append runs under the mutex for a block that fits), and releases the mutex.
+func TestVerifC04KFEOFAdvance(t *testing.T) {
+	const sig = "hh-eof-advance-skips-concurrent-append"
+	st := verifkit.For("C04", "TestVerifC04KFEOFAdvance", "directed, owned schedule: real SendWrite on a drained queue (0-2 blocks delivered before) with one Append placed between its Current and its Advance; non-trivial always")
+	defer st.Flush()
+	lost, tried := 0, 0
+	what := ""
+	for _, pre := range []int{0, 1, 2} {
+		for attempt := 0; attempt < 3; attempt++ {
+			root, _ := os.MkdirTemp("", "c04kfe")
+			w := &vWriter{}
+			svc := NewService(vConfig(root, 1<<30, 16), w)
+			svc.MetaClient = &vMetaC{gone: map[uint64]bool{}}
+			if err := svc.Open(); err != nil {
+				t.Fatal(err)
+			}
+			var preBlks []vBlk
+			for i := 0; i < pre+1; i++ { // the first write creates the processor
+				pts := []models.Point{vPoint(i+1, 0, 60)}
+				if err := svc.WriteShard(7, 2, pts); err != nil {
+					t.Fatal(err)
+				}
+				preBlks = append(preBlks, vPointsBlk(i+1, 7, pts))
+			}
+			np, _ := svc.processor(2, 7)
+			for range preBlks {
+				if _, err := np.SendWrite(); err != nil {
+					t.Fatalf("drain: %v", err)
+				}
+			}
+			w.take()
+			if !np.Empty() {
+				t.Fatalf("%s queue not empty after draining", verifkit.Sig("empty-false-while-nothing-pending"))
+			}
+			q := np.queue
+			x := vRawBlk(50, 7, 40)
+			q.mu.Lock() // a writer is inside Append
+			done := make(chan error, 1)
+			go func() { _, err := np.SendWrite(); done <- err }()
+			time.Sleep(time.Duration(5*(attempt+1)) * time.Millisecond) // schedule driver only: lets SendWrite reach Advance
+			aerr := q.tail.append(x.Raw, false)
+			q.mu.Unlock() // the writer's Append returns nil here: the block is acknowledged
+			<-done
+			if aerr != nil {
+				t.Fatalf("append: %v", aerr)
+			}
+			tried++
+			// what does the queue deliver now?
+			_, serr := np.SendWrite()
+			calls := w.take()
+			gone := len(calls) == 0 && np.Empty()
+			st.Case(true, fmt.Sprint("eofadv", pre, attempt), fmt.Sprintf("append-between-current-and-advance:lost=%v", gone))
+			if gone {
+				lost++
+				if what == "" {
+					what = fmt.Sprintf("after %d delivered blocks, an Append that returned nil while SendWrite was between Current()=EOF and Advance() is skipped: next SendWrite -> %v with no delivery, Empty() true", pre+1, serr)
+				}
+			} else if len(calls) != 1 || !vEqualBlocks(calls[0].Pts, x.Pts) {
+				t.Fatalf("%s after the interleaved append the queue delivered %d calls (err %v)", verifkit.Sig("delivered-wrong-block"), len(calls), serr)
+			}
+			svc.Close()
+			os.RemoveAll(root)
+			if gone {
+				break
+			}
+		}
+	}
+	st.Sample(map[string]interface{}{"tried": tried, "lost": lost, "example": what})
+	if lost > 0 {
+		st.KnownReproduced(sig, fmt.Sprintf("%d of %d owned schedules lose the block: %s", lost, tried, what))
 	}
 }
